@@ -7,27 +7,41 @@ from srcshape import shared_shape, write_shape_v
 
 
 def writer_spec():
-    """fresh writer core: the state is the tuple of blocks"""
-    def step(blocks, callstr):
+    """fresh writer core: the state is (tuple of blocks, frozenset of cleared indices)"""
+    def step(st, callstr):
+        blocks, cleared = st
         call = callstr.split(" ")
         if call[0] == "append":
             nb = blocks + (unhex(call[1]),)
-            return nb, "ok %d %d" % (len(nb), sum(len(b) for b in nb))
+            return (nb, cleared), "ok %d %d" % (len(nb), sum(len(b) for b in nb))
         if call[0] == "appendb":
             add = tuple(unhex(x) for x in call[1].split(",")) if len(call) > 1 and call[1] else ()
             nb = blocks + add
-            return nb, "ok %d %d" % (len(nb), sum(len(b) for b in nb))
+            return (nb, cleared), "ok %d %d" % (len(nb), sum(len(b) for b in nb))
         if call[0] == "get":
             i = int(call[1])
-            return blocks, ("ok some " + hexb(blocks[i])) if i < len(blocks) else "ok none"
+            return st, ("ok some " + hexb(blocks[i])) if (i < len(blocks) and i not in cleared) else "ok none"
         if call[0] == "has":
-            return blocks, "ok %d" % (1 if int(call[1]) < len(blocks) else 0)
+            i = int(call[1])
+            return st, "ok %d" % (1 if (i < len(blocks) and i not in cleared) else 0)
         if call[0] == "info":
-            return blocks, "ok %d %d %d 0 1" % (len(blocks), sum(len(b) for b in blocks), len(blocks))
+            c = 0
+            while c < len(blocks) and c not in cleared:
+                c += 1
+            return st, "ok %d %d %d 0 1" % (len(blocks), sum(len(b) for b in blocks), c)
+        if call[0] == "clear":
+            s_, e_ = int(call[1]), int(call[2])
+            if s_ >= e_:
+                return st, "ok"
+            if s_ >= len(blocks):
+                # the crate logs a harmless entry and answers BadArgument when the core is empty or its last block is held (C01,
+                # ClearBeyond.v); nothing changes either way
+                return st, ("err BadArgument" if (not blocks or (len(blocks) - 1) not in cleared) else "ok")
+            return (blocks, cleared | frozenset(range(s_, min(e_, len(blocks))))), "ok"
         if call[0] in ("missing", "prove"):
-            return blocks, None
+            return st, None
         raise ValueError(call)
-    return (), step
+    return ((), frozenset()), step
 
 
 def replica_spec(blocks, have):
@@ -208,6 +222,9 @@ def gen_tasks(r, nt, nc, big=0.2):
                 k = r.choice(BIG) if r.random() < big else r.choice([0, 2, 3])
                 hi = max(hi, k + 4)
                 calls.append(batch_call(t, k))
+            elif c < 0.66:
+                a = r.randrange(0, hi)
+                calls.append("clear %d %d" % (a, a + r.choice([1, 1, 2, 3])))
             elif c < 0.78:
                 calls.append("get %d" % r.randrange(0, hi))
             elif c < 0.86:
